@@ -44,14 +44,17 @@ Section MidFill.
   Hypothesis Hb : forall a, 0 <= vrd a < 256.
   Hypothesis Hidx : 0 <= dictIdx /\ dictIdx <= prefixIdx /\ prefixIdx <= s0 /\ s0 + srcSize < M32.
   Hypothesis Hsz : 0 <= srcSize.
+  Variable lo : Z.
+  Hypothesis Hlo : 0 <= lo <= dictIdx.
 
   Notation iend := (mi_iend s0 srcSize).
   Notation mflimit := (mi_mflimit s0 srcSize).
   Notation matchlimit := (mi_matchlimit s0 srcSize).
-  Notation lo := dictIdx.
-  Notation out_ss := (out_ss vrd dictIdx s0 srcSize).
-  Notation MInv := (MInv vrd dictIdx s0 srcSize).
-  Notation found_ok := (found_ok vrd dictIdx s0 srcSize).
+  Notation out_ss := (out_ss vrd s0 srcSize lo).
+  Notation MInv := (MInv vrd s0 srcSize lo).
+  Notation found_ok := (found_ok vrd s0 srcSize lo).
+  Variable dsrch : Z -> option found.
+  Hypothesis Hdsrch : forall ip f, s0 <= ip <= mflimit -> dsrch ip = Some f -> found_ok ip f.
 
   (* what a truncated last run would look like after the sequences [ss], with the output cursor at [op] *)
   Definition trunc_run (op : Z) : Z := let lr := maxOut - op - 1 in lr - (lr + 256 - RUN_MASK) / 256.
@@ -148,7 +151,7 @@ Section MidFill.
     clearbody ml'. clearbody mx.
     pose proof (match_ok_shorten vrd lo (m_ip s) dist ml ml' Hm ltac:(lia)) as Hm'.
     pose proof (encodeSequence_notlimited vrd (m_ip s) (m_anchor s) (m_op s) ml' dist (maxOut - 5)) as Hret.
-    pose proof (out_ss_snoc vrd dictIdx s0 srcSize (m_rout s) (m_anchor s) ss (m_ip s) ml' dist (m_op s) false (maxOut - 5)
+    pose proof (out_ss_snoc vrd s0 srcSize lo (m_rout s) (m_anchor s) ss (m_ip s) ml' dist (m_op s) false (maxOut - 5)
                   Hss ltac:(lia) Hm' Hipm ltac:(lia)) as Hsn. cbv zeta in Hsn. specialize (Hsn Hret).
     pose proof (encodeSequence_shape vrd (m_ip s) (m_anchor s) (m_op s) ml' dist false (maxOut - 5) ltac:(lia) ltac:(unfold MINMATCH; lia)) as Hsh.
     cbv zeta in Hsh. specialize (Hsh Hret). rewrite <- EL in Hsh. destruct Hsh as (Hso & _).
@@ -186,7 +189,7 @@ Section MidFill.
     pose proof (limits s0 srcSize) as (L1 & L2 & L3).
     unfold encode_step.
     assert (Hfa : m_anchor s <= f_ip f) by lia.
-    pose proof (catchback_match vrd prefixIdx dictIdx s0 srcSize Hidx (Z.to_nat (f_ip f - m_anchor s)) (f_ip f) (f_ml f) (m_anchor s) (f_dist f)
+    pose proof (catchback_match vrd prefixIdx dictIdx s0 srcSize Hidx lo Hlo (Z.to_nat (f_ip f - m_anchor s)) (f_ip f) (f_ml f) (m_anchor s) (f_dist f)
                   ltac:(lia) Hfa ltac:(unfold M32 in *; lia) Hfm) as Hcb. cbv zeta in Hcb.
     destruct (catchback vrd prefixIdx (Z.to_nat (f_ip f - m_anchor s)) (f_ip f) (f_ml f) (m_anchor s) (f_dist f)) as [ip ml].
     cbn [fst snd] in Hcb. destruct Hcb as (C1 & C2 & C3). cbv zeta.
@@ -196,7 +199,7 @@ Section MidFill.
       set (e := encodeSequence vrd ip (m_anchor s) (m_op s) ml (f_dist f) true oe) end.
     destruct (e_ret e =? 0) eqn:Er.
     - assert (Hret : e_ret e = 0) by lia.
-      pose proof (out_ss_snoc vrd dictIdx s0 srcSize (m_rout s) (m_anchor s) ss ip ml (f_dist f) (m_op s) true (maxOut - LASTLITERALS)
+      pose proof (out_ss_snoc vrd s0 srcSize lo (m_rout s) (m_anchor s) ss ip ml (f_dist f) (m_op s) true (maxOut - LASTLITERALS)
                     Hss ltac:(lia) C3 ltac:(lia) ltac:(lia)) as Hsn. cbv zeta in Hsn. fold e in Hsn. specialize (Hsn Hret).
       pose proof (encodeSequence_success_room vrd ip (m_anchor s) (m_op s) ml (f_dist f) (maxOut - LASTLITERALS)
                     ltac:(lia) ltac:(unfold MINMATCH; lia)) as Hrm. cbv zeta in Hrm. fold e in Hrm. specialize (Hrm Hret).
@@ -210,20 +213,27 @@ Section MidFill.
   Qed.
 
   Lemma main_loop_fill : forall fuel s, MInv s -> FInv s ->
-    RFill (main_loop vrd FillOutput prefixIdx dictIdx s0 srcSize fuel s (maxOut - LASTLITERALS)).
+    RFill (main_loop vrd FillOutput prefixIdx dictIdx s0 srcSize dsrch fuel s (maxOut - LASTLITERALS)).
   Proof.
     induction fuel as [|fuel IH]; intros s HI HF; cbn [main_loop]; [exact I|]. cbv zeta.
     pose proof (limits s0 srcSize) as (L1 & L2 & L3).
     pose proof HI as (Ha & Hae & Ho & Hop & T4 & T8 & T4e & T8e).
     destruct (m_ip s <=? mflimit) eqn:Eip.
-    - pose proof (search_sound vrd prefixIdx dictIdx s0 srcSize Hidx (m_ip s) (m_h4 s) (m_h8 s) ltac:(lia) T4 T8) as Hs.
+    - pose proof (search_sound vrd prefixIdx dictIdx s0 srcSize Hidx lo Hlo (m_ip s) (m_h4 s) (m_h8 s) ltac:(lia) T4 T8) as Hs.
       destruct (search vrd prefixIdx dictIdx s0 srcSize (m_ip s) (m_h4 s) (m_h8 s)) as [[[fd|] h4'] h8'].
       + destruct Hs as (Hfd & A4 & A8).
-        pose proof (encode_step_sound vrd FillOutput prefixIdx dictIdx s0 srcSize Hb Hidx s fd h4' h8' (maxOut - LASTLITERALS) HI ltac:(lia) Hfd A4 A8) as He1.
+        pose proof (encode_step_sound vrd FillOutput prefixIdx dictIdx s0 srcSize Hb Hidx lo Hlo dsrch Hdsrch s fd h4' h8' (maxOut - LASTLITERALS) HI ltac:(lia) Hfd A4 A8) as He1.
         pose proof (encode_step_fill s fd h4' h8' HI HF ltac:(lia) Hfd) as He2.
         destruct (encode_step vrd FillOutput prefixIdx s0 srcSize s (u32 (m_ip s)) fd h4' h8' (maxOut - LASTLITERALS)) as [s'|r]; [|exact He2].
         apply IH; assumption.
       + destruct Hs as (A4 & A8).
+        destruct (dsrch (m_ip s)) as [fd|] eqn:Ed.
+        { pose proof (Hdsrch (m_ip s) fd ltac:(lia) Ed) as Hfd.
+          pose proof (encode_step_sound vrd FillOutput prefixIdx dictIdx s0 srcSize Hb Hidx lo Hlo dsrch Hdsrch s fd h4' h8' (maxOut - LASTLITERALS) HI ltac:(lia) Hfd A4
+                        ltac:(eapply tab_lt_mono; eauto; lia)) as He1.
+          pose proof (encode_step_fill s fd h4' h8' HI HF ltac:(lia) Hfd) as He2.
+          destruct (encode_step vrd FillOutput prefixIdx s0 srcSize s (u32 (m_ip s)) fd h4' h8' (maxOut - LASTLITERALS)) as [s'|r]; [|exact He2].
+          apply IH; assumption. }
         assert (Hq : 0 <= (m_ip s - m_anchor s) / 512) by (Z.div_mod_to_equations; lia).
         apply IH.
         * unfold HcMidSound.MInv. cbn [m_ip m_anchor m_op m_rout m_h4 m_h8].
@@ -238,7 +248,7 @@ Section MidFill.
   (* LZ4MID_compress with limit == fillOutput *)
   Theorem mid_compress_fill_strict h4 h8 :
     tab_lt h4 s0 -> tab_lt h8 s0 ->
-    RFill (mid_compress vrd FillOutput prefixIdx dictIdx s0 srcSize maxOut h4 h8).
+    RFill (mid_compress vrd FillOutput prefixIdx dictIdx s0 srcSize maxOut dsrch h4 h8).
   Proof.
     intros T4 T8. pose proof (limits s0 srcSize) as (L1 & L2 & L3). unfold mid_compress.
     destruct ((srcSize <? 0) || (maxOut <? 0) || (srcSize >? LZ4_MAX_INPUT_SIZE)); [exact I|]. cbv zeta.
